@@ -126,7 +126,7 @@ def embedded_case(ctx, i, rng):
     probes.install()
     n = gen_ir.generate(rng, profile="flatten")
     from ..elab import Elab
-    if Elab(n, max_occ=1500).truncated:
+    if Elab(n, max_occ=400).truncated:      # (uniquify makes one cell per occurrence and the hooks walk all of them: quadratic)
         ctx.count("embedded_discarded_too_large")
         return
     u = Universe.of(n)
